@@ -7,6 +7,9 @@ AllProgs == {p \in [calls : [F -> CallLists], gate : [F -> 0..2]] : \A j \in F :
 FewGates(n) == {p \in AllProgs : Cardinality({j \in F : p.gate[j] # 0}) <= n}
 Progs1 == FewGates(1)
 NoBad == bad = {}
+\* fallback configuration: salsa's fallback cycles are history dependent (known findings F3, F4), the model
+\* reproduces that; everything else must hold
+NoBadFb == bad \subseteq {"C13"}
 FinalIsLfp == \A j \in F : (memo[j].has /\ memo[j].final /\ ShallowOK(memo[j])) => memo[j].val = Expected[j]
 LocksQuiescent == (pc = "L0") => \A j \in F : lock[j] # "held" /\ (lock[j] = "xfer" => ~Owned(j))
 HeldHasFrameOrVerify == \A j \in F : lock[j] = "held" => TRUE
